@@ -10,6 +10,8 @@ import Rip.Cex.C06Emitters
 import Rip.Cex.C06
 import Rip.Driver.C06
 import Rip.Gen.Consts
+import Rip.Gen.CallGraph
+import Rip.Lemmas.Rebuild
 namespace Rip.Props.C06
 open Rip.Join Rip.Driver.C06
 
@@ -102,5 +104,52 @@ theorem emitters_can_finish (counts sched : List Nat) :
 theorem emitters_early_release_inverts : ∃ (counts sched : List Nat),
     (Rip.Emitters.run false counts sched).published = [1, 0] ∧ (Rip.Emitters.run false counts sched).recorded = [1, 0] :=
   Rip.Cex.C06Emitters.early_release_inverts_order
+
+/-! ### a reader rebuilds the sidecar while appenders append (late subscribers) -/
+
+/-- every occurrence of `tok` in an effect order lies inside a `lock n … unlock n` region -/
+def insideLock (n : Nat) (tok : Rip.Gen.Eff) (o : List Rip.Gen.Eff) : Bool :=
+  (o.foldl (fun (st : Bool × Bool) e =>
+      if e == .lock n then (true, st.2)
+      else if e == .unlock n then (false, st.2)
+      else if e == tok then (st.1, st.2 && st.1) else st) (false, true)).2
+
+/-- **With the rewrite under the seq lock nothing that was broadcast is ever missing from a
+readable sidecar** — the history a subscriber attaching now would read — for any number of
+appenders and readers, any start (sidecar in step with the log, or unreadable with any content) and
+EVERY schedule of their effects. Proof: Rip/Lemmas/Rebuild.lean (invariant over the schedule). -/
+theorem late_subscriber_misses_nothing (n : Nat) (sideOk : Bool) (junk apps : List Nat) (readers : Nat)
+    (sched : List Nat) :
+    Rip.Rebuild.missed (Rip.Rebuild.run true (Rip.Rebuild.init n sideOk junk apps readers) sched) = [] :=
+  Rip.Rebuild.no_missed_locked n sideOk junk apps readers sched
+
+/-- …and whenever nobody is inside an append or a rewrite, a readable sidecar IS the log -/
+theorem sidecar_is_the_log_when_idle (n : Nat) (sideOk : Bool) (junk apps : List Nat) (readers : Nat)
+    (sched : List Nat) :
+    let s := Rip.Rebuild.run true (Rip.Rebuild.init n sideOk junk apps readers) sched
+    s.lock = none → s.sideOk = true → s.side = s.log :=
+  Rip.Rebuild.side_eq_log_when_idle n sideOk junk apps readers sched
+
+/-- the code as it was (log read and rewrite outside the lock): a frame appended and broadcast
+between a reader's log read and its rewrite is lost to every later subscriber. Replayed on the real
+store by the harness (`reader_rebuild_race_case`) on every run. -/
+theorem unlocked_rewrite_loses_a_frame :
+    Rip.Rebuild.missed (Rip.Rebuild.run false (Rip.Rebuild.init 3 false [] [1] 1) [1, 1, 0, 0, 0, 0, 0, 1, 1]) = [3] :=
+  Rip.Rebuild.missed_unlocked
+
+/-- **obligations over the regenerated source**: `replay_events` tries the cache, takes the seq
+lock (3), retries the cache and only then calls the log-reading helper, all before releasing the
+lock; the helper reads the log before it rewrites; the only functions that rewrite the sidecar are
+that helper and `load_next_seq_for`; and `load_next_seq_for` is only ever reached (token `seqLoad`)
+inside the seq lock of an append path. -/
+theorem gen_reader_rebuild_locked :
+    insideLock 3 .fromLogLocked (Rip.Gen.orderOf 50) = true ∧
+    (Rip.Gen.orderOf 50).contains .fromLogLocked = true ∧
+    (Rip.Gen.orderOf 50).filter (· == .tryCache) = [.tryCache, .tryCache] ∧
+    Rip.Gen.orderOf 51 = [.logRead, .rebuild] ∧
+    Rip.Gen.CallGraph.sidecarRebuilders.all (fun h => [6420891449161542399, 5380091558238241133].contains h) = true ∧
+    Rip.Gen.CallGraph.sidecarRebuilders.length = 2 ∧
+    (Rip.Gen.effectOrders.filter (fun e => e.2.contains .seqLoad)).all (fun e => insideLock 3 .seqLoad e.2) = true ∧
+    (Rip.Gen.effectOrders.filter (fun e => e.2.contains .seqLoad)).length ≥ 11 := by decide
 
 end Rip.Props.C06
